@@ -14,6 +14,8 @@ engine checks the real writers/readers against them (a differential, not a proof
 import LA.Lemmas.UstarSpec
 import LA.Lemmas.Stream
 import LA.Lemmas.Pax
+import LA.Lemmas.CpioStream
+import LA.Lemmas.CpioStreamOdc
 import LA.Props.C10
 namespace LA.C02
 open LA.Codec LA.NumFmt
@@ -143,5 +145,51 @@ theorem norm_path_idem (f : WFmt) (ft : FType) (p : List Nat)
   cases f <;> simp only [normPath] <;> first | exact dirSlash_idem ft p | rfl | contradiction
 
 example : normPath .ustar .dir [100] = [100, 47] ∧ normPath .ustar .dir [100, 47] = [100, 47] := by decide
+
+/-! ### whole cpio archives -/
+
+open LA.Gen.CodecConsts in
+/-- **Round trip of a cpio newc archive**: any list of entries (each a C-string entry the writer
+accepts with plain ARCHIVE_OK or refuses; bodies handed over in any chunking), written with
+`archive_write_set_format_cpio_newc` under any output blocking: the 110-byte headers, names padded to
+4 bytes, symlink targets and bodies with their padding, and the `TRAILER!!!` entry, are read by the
+cpio reader as exactly the accepted entries in order — every field newc carries equal to `norm`,
+bodies byte-identical — and the archive ends cleanly at the trailer (block padding ignored).
+Refused entries leave no trace. -/
+theorem stream_roundtrip_newc (es : List (Entry × List (List Nat))) (hes : ∀ ec ∈ es, NewcEntryOK ec.1)
+    (bpb : Nat) (bilb : Int) :
+    ∃ rbs, cpioRead false true (writeArchive .newc es bpb bilb) ARCHIVE_FORMAT_CPIO_SVR4_NOCRC [] []
+        = ⟨ARCHIVE_FORMAT_CPIO_SVR4_NOCRC, rbs, .eof, 0⟩ ∧
+      AllPairs (CpioReadsBack .newc) (es.filter fun ec => newcAccepted ec.1) rbs := by
+  unfold writeArchive
+  simp only []
+  rw [List.append_assoc]
+  obtain ⟨rbs, h, hall⟩ := cpioRead_newc_entries es hes {} (writeEntries .newc {} es).2 _
+    ARCHIVE_FORMAT_CPIO_SVR4_NOCRC [] []
+  exact ⟨rbs, by rw [h]; simp, hall⟩
+
+open LA.Gen.CodecConsts in
+/-- **Round trip of a cpio odc archive** (76-byte octal headers, no padding, inode numbers
+re-synthesised by the writer, at most 262143 entries — beyond that the format has no inode numbers
+left and the writer gives up). -/
+theorem stream_roundtrip_odc (es : List (Entry × List (List Nat))) (hes : ∀ ec ∈ es, OdcEntryOK ec.1)
+    (hn : es.length ≤ 262143) (bpb : Nat) (bilb : Int) :
+    ∃ rbs, cpioRead false false (writeArchive .odc es bpb bilb) ARCHIVE_FORMAT_CPIO_POSIX [] []
+        = ⟨ARCHIVE_FORMAT_CPIO_POSIX, rbs, .eof, 0⟩ ∧
+      AllPairs (CpioReadsBack .odc) (es.filter fun ec => odcAccepted ec.1) rbs := by
+  unfold writeArchive
+  simp only []
+  rw [List.append_assoc]
+  obtain ⟨rbs, h, hall⟩ := cpioRead_odc_entries es hes {} 0 inoInv_empty (by omega) (writeEntries .odc {} es).2 _
+    ARCHIVE_FORMAT_CPIO_POSIX [] []
+  exact ⟨rbs, by rw [h]; simp, hall⟩
+
+/-- e.g. a regular file with a 5-byte body in two chunks, a symbolic link, a refused entry (no
+size), a directory: three of the four are accepted. -/
+example : ([({ path := some [97], size := some 5, nlink := 1 }, [[1, 2], [3, 4, 5]]),
+            ({ path := some [108], ftype := .lnk, sym := [116], nlink := 1 }, []),
+            ({ path := some [120], size := none }, []),
+            ({ path := some [100], ftype := .dir, nlink := 2 }, [])]
+    : List (Entry × List (List Nat))).map (fun ec => newcAccepted ec.1) = [true, true, false, true] := by decide
 
 end LA.C02
